@@ -350,3 +350,38 @@ Qed.
 
 Theorem uint_ExtOK : ExtOK parse_uint obs_uint (fun _ _ => True).
 Proof. exact (parse_ExtOK ui_iter obs_uint ui_IterExt). Qed.
+
+(* ---- the IterExt clause as a relation between the two iteration results ------------------ *)
+(* r: result of the iteration on the zipper (pre, rest, j); r': its result on (pre, rest ++ x, j) *)
+Definition clause {St} (iter : list byte -> list byte -> N -> St -> ires St)
+  (pre rest x : list byte) (j : N) (r r' : ires St) : Prop :=
+  match r with
+  | Next k t' => (k <= length rest)%nat -> r' = Next k t'
+  | Ret o EMore t' =>
+    exists k, (k <= length rest)%nat /\ o = j + nnat k /\
+      run iter (zpre k pre (rest ++ x)) (zrest k (rest ++ x)) o 0 t' = after iter pre (rest ++ x) j r'
+  | Ret o e t' => r' = Ret o e t'
+  | IPanic => True
+  end.
+
+Lemma clause_IterExt {St} (iter : list byte -> list byte -> N -> St -> ires St) :
+  (forall pre rest x j t, j = nnat (length pre) ->
+     clause iter pre rest x j (iter pre rest j t) (iter pre (rest ++ x) j t)) -> IterExt iter.
+Proof.
+  intros H pre rest x j t Hj. specialize (H pre rest x j t Hj). unfold clause in H.
+  destruct (iter pre rest j t) as [k t'|o e t'|]; auto.
+  destruct e; auto. destruct H as (k & Hk & Ho & Hr). exists k. split; [exact Hk|]. split; [exact Ho|].
+  rewrite Hr. symmetry. apply run_after.
+Qed.
+
+(* the same result on both sides, and it is not a suspension *)
+Lemma clause_same {St} (iter : list byte -> list byte -> N -> St -> ires St) pre rest x j (r : ires St) :
+  match r with Ret _ EMore _ => False | _ => True end -> clause iter pre rest x j r r.
+Proof. unfold clause. destruct r as [k t'|o e t'|]; auto. destruct e; auto; intros []. Qed.
+
+(* suspension right here with the state untouched *)
+Lemma clause_here {St} (iter : list byte -> list byte -> N -> St -> ires St) pre rest x j (t : St) :
+  clause iter pre rest x j (Ret j EMore t) (iter pre (rest ++ x) j t).
+Proof.
+  unfold clause. exists 0%nat. split; [lia|]. split; [unfold nnat; lia|]. rewrite zpre0, zrest0. apply run_after.
+Qed.
